@@ -93,6 +93,7 @@ impl World {
         let spec = tree::gen_tree(rng, &params, &mut gen_state);
         tree::sync_to_disk(None, &spec, &src).expect("materialise");
         let snap = tree::snapshot(&src).expect("snapshot");
+        let band_numbers_to_99998 = params.band_numbers_to_99998;
         World {
             sc,
             src,
@@ -107,7 +108,10 @@ impl World {
             seed,
             steps_done: 0,
             log_seed: seed,
-            first_band: *rng.pick(&[0u32, 0, 0, 0, 8, 98, 998, 9997, 9998, 9998, 99_998]),
+            first_band: {
+                let fb = *rng.pick(&[0u32, 0, 0, 0, 8, 98, 998, 9997, 9998, 9998, 99_998]);
+                if fb == 99_998 && !band_numbers_to_99998 { 9998 } else { fb }
+            },
         }
     }
 
